@@ -276,7 +276,7 @@ func main() {
 	}
 	var race *raceRun
 	if c.Worker == 0 && c.Replay == "" && (c.Only == "" || strings.Contains("racepass", c.Only)) {
-		race = startRacePass()
+		race = startRacePass(quick)
 	}
 
 	type item struct {
@@ -290,6 +290,19 @@ func main() {
 		for _, kind := range objs.Kinds(!quick) {
 			ps, _ := objs.Describe(kind)
 			for mi, mix := range mixes(ps, callers, quick) {
+				if kind == "workflow-fanin" {
+					// every streaming caller of this object adds 3 forwarder goroutines (10 threads with two of
+					// them: > 10^5 executions at bound 0 alone): at most one streaming caller, 2 callers
+					streaming := 0
+					for _, p := range mix {
+						if p == "stream" || p == "transform" {
+							streaming++
+						}
+					}
+					if callers == 3 || streaming > 1 {
+						continue
+					}
+				}
 				items = append(items, item{kind, mix, false, callers})
 				if mi == 0 && callers == 2 {
 					items = append(items, item{kind, mix, true, callers})
@@ -307,6 +320,9 @@ func main() {
 		b := bounds
 		if !quick && (it.callers == 3 || par) {
 			b = bounds[:len(bounds)-1] // 3 callers / intra-run parallelism: one level less than the sequential 2-caller scenarios
+			if it.callers == 3 && par {
+				b = bounds[:len(bounds)-2]
+			}
 		}
 		sc := harness.Scenario{Name: sp.name, Bounds: b, MaxExecs: 3_000_000, New: sp.build,
 			Signature: func(err error) string {
